@@ -99,6 +99,7 @@ def evToks : Event → List (Nat × String)
   | .unload i => [(i, s!"U{i}")]
   | .close i => [(0, s!"C{i}")]
   | .exec _ i ts => (sortNats (ts.map fun t => [t.1])).map fun t => (i, s!"r{i}:{showNats "." t}")
+  | .refused u a i => [(i, s!"X{if u then 1 else 0}{if a then 1 else 0}:{i}")]
 
 /-- group consecutive tokens with the same subject. -/
 def blocks : List (Nat × String) → Option Nat → List String → List (List String) → List (List String)
@@ -134,6 +135,15 @@ def step (s : St) : List String → St × String
   | ["mode", "set"] => ({ s with seq := false }, "ok")
   | ["mode", "seq"] => ({ s with seq := true }, "ok")
   | ["mode", "sparse"] => ({ s with sparse := true }, "ok")
+  -- a refusing hook of the table: unload? runs-after-the-observers? symbol once? error code
+  | ["mode", "refuse", u, a, sym, once, code] =>
+    match natTok u, natTok a, natTok sym, natTok once, natTok code with
+    | some u, some a, some sym, some once, some code =>
+      if u ≤ 1 ∧ a ≤ 1 ∧ once ≤ 1 then
+        ({ s with st := { s.st with refusals := s.st.refusals ++
+            [{ unload := u == 1, after := a == 1, sym := sym, once := once == 1, code := code }] } }, "ok")
+      else (s, "bad-op")
+    | _, _, _, _, _ => (s, "bad-op")
   | ["observe"] => (s, showState s.st)
   -- the harness re-uses symbol objects in this case; invisible to the model (symbols are ids)
   | ["mode", "reuse"] => (s, "ok")
